@@ -1,7 +1,7 @@
 #!/bin/sh
 # tools/keep_seed.sh <ID> <m> <name> "<needs>" "<caught by>"   — store a confirmed seeded change under /verif/seeded/<name>/
 ID=$1; M=$2; NAME=$3; NEEDS=$4; CAUGHT=$5
-SRC=/tmp/wt/out/$ID/$M; DST=/verif/seeded/$NAME
+SRC=${OUT_BASE:-/tmp/wt/out}/$ID/$M; DST=/verif/seeded/$NAME
 mkdir -p $DST
 cp $SRC/patch.diff $DST/patch.diff
 [ -f $SRC/demo_test.rs ] && cp $SRC/demo_test.rs $DST/demo_test.rs
@@ -11,7 +11,7 @@ python3 - "$ID" "$NAME" "$NEEDS" "$CAUGHT" <<'PY'
 import json,sys
 id,name,needs,caught=sys.argv[1:5]
 json.dump({"property":id,"name":name,"breaks":id,"needs_to_manifest":needs,
- "confirmed_by":"tools/verify_seed.sh in the author's scratch worktree at the pinned commit: demo_test passes without the patch, fails with it; `cargo test --workspace --no-fail-fast --offline` passes (652) with it (see verify_summary.txt)",
+ "confirmed_by":"tools/verify_seed.sh in the author's scratch worktree: demo_test passes without the patch, fails with it; `cargo test --workspace --no-fail-fast --offline` passes (652) with it (see verify_summary.txt)",
  "detected_by":caught,"author":"independent sub-agent given only the property text and a scratch worktree"},
  open('/verif/seeded/%s/meta.json'%name,'w'),indent=1)
 PY
